@@ -154,23 +154,30 @@ class Flow(object):
             pscope = self.scope.parent
             if pscope:
                 snames = pscope.names
-                if isinstance(self.scope, (ClassScope, SourceScope)):
-                    # class and module bodies fall back to the outer (builtin)
-                    # name while their own binding has not been executed yet
+                if isinstance(self.scope, SourceScope):
+                    # a module body falls back to the builtin name while its
+                    # own binding has not been executed yet
                     return MergedDict(snames)
+
+                if isinstance(self.scope, ClassScope):
+                    # so does a class body with the outer names
+                    if not self.scope.globals:
+                        return MergedDict(snames)
+                    names = dict(snames.items())
                 else:
                     outer_names = set(snames).difference(self.scope.locals)
                     names = {n: snames[n] for n in outer_names}
-                    if self.scope.globals:
-                        # declared global: module level names, not the ones
-                        # of enclosing functions
-                        top_names = self.scope.top.names
-                        for n in self.scope.globals:
-                            if n in top_names:
-                                names[n] = top_names[n]
-                            else:
-                                names.pop(n, None)
-                    return names
+
+                if self.scope.globals:
+                    # declared global: module level names, not the ones
+                    # of enclosing functions
+                    top_names = self.scope.top.names
+                    for n in self.scope.globals:
+                        if n in top_names:
+                            names[n] = top_names[n]
+                        else:
+                            names.pop(n, None)
+                return names
             else:
                 return {}
 
